@@ -44,6 +44,16 @@ theorem align_uses_firstN (est ref : List (Pose K)) :
   simp only [alignInputs, positions, List.map_append]
   rw [firstN_append n hn _ _ (by simpa using he), firstN_append n hn _ _ (by simpa using hr)]
 
+/-- **unequal numbers of poses are refused**: when the point sets handed to Umeyama (the first-`n`
+positions of each trajectory; `n = -1`: all of them) differ in size, the model raises evo's geometry
+error — in particular a reference longer than the estimate is not silently cut (`n = -1`) -/
+theorem align_refuses_unequal (n : Int) (est ref : List (Pose Rat))
+    (h : (alignInputs n est ref).1.length ≠ (alignInputs n est ref).2.length) :
+    umeRefuses (alignInputs n est ref).1 (alignInputs n est ref).2 = true ∧
+    (n = -1 → est.length ≠ ref.length → umeRefuses (positions est) (positions ref) = true) := by
+  refine ⟨by simp [umeRefuses, shapeMismatch, h], fun _ hl => ?_⟩
+  simp [umeRefuses, shapeMismatch, positions, hl]
+
 /-- **origin mode maps the first pose onto the reference's first pose** -/
 theorem alignOrigin_first_pose (r0 e0 : Pose K) (rs es : List (Pose K)) (he : IsRigid e0) :
     ∃ T ps, alignOrigin (r0 :: rs) (e0 :: es) = some (T, r0 :: ps) ∧ T = r0.mul e0.inv := by
